@@ -616,8 +616,14 @@ class Ovld:
         # even if this build fails, so that they do not keep serving the
         # previous set of methods
         failure = None
+        # In service: built, or (an interrupt arrived at the very end of a
+        # build) the generated entry point is installed already
+        in_service = self._compiled or (
+            hasattr(self, "dispatch")
+            and self.dispatch.__code__ is not self.dispatch._bootstrap_code
+        )
         try:
-            if self._compiled:
+            if in_service:
                 self.compile()
         except Exception as exc:
             failure = exc
